@@ -64,8 +64,7 @@ def parseExpression (rewrites : List Userset) (op : Op) : Option Userset :=
     | .butNot => some (.diff x y)
 
 def notify (st : LState) (msg : String) (at_ : Tree) : LState :=
-  let (l, c) := at_.startPos
-  { st with errors := st.errors ++ [⟨l, c, msg⟩] }
+  { st with errors := st.errors ++ [⟨at_.startPos.1, at_.startPos.2, msg⟩] }
 
 /-- ASCII upper-casing (the parameter type keywords are ASCII) -/
 def upper (s : String) : String := s.map Char.toUpper
